@@ -37,6 +37,10 @@ pub struct Root {
     pub big_endian: bool,
     /// index into `backings`, or none
     pub backing: Option<usize>,
+    /// the backing object was created with the opposite endianness of the memory (legal:
+    /// the paged memory reads the backing byte by byte)
+    #[serde(default)]
+    pub backing_other_endian: bool,
 }
 
 #[derive(Clone, Debug, Serialize, Deserialize, PartialEq, Eq)]
@@ -64,7 +68,15 @@ pub enum Action {
     Compare { a: usize, b: usize },
     Sweep,
     /// replace the party's backing (index into `backings`, or none)
-    SetBacking { p: usize, backing: Option<usize> },
+    SetBacking {
+        p: usize,
+        backing: Option<usize>,
+        #[serde(default)]
+        other_endian: bool,
+    },
+    /// read-modify-write without the modify: load `bits` at `from` and, if present, store
+    /// the loaded value at `to` (from == to re-stores what is already there)
+    Copy { p: usize, from: u64, to: u64, bits: usize },
     /// arm a fault that fires at the k-th simulation point inside the next
     /// mutating operation: kind "drop" | "fork" (of `victim`, into `new`)
     Arm { kind: String, k: usize, victim: usize, new: usize },
@@ -288,8 +300,9 @@ impl<'a, V: SimValue> Exec<'a, V> {
                         shadow.add_backing_region(r.address, &hex_bytes(&r.data), r.perms);
                     }
                     shadow.has_backing = true;
-                    let rc = real.entry((bi, root.big_endian)).or_insert_with(|| {
-                        let mut b = backing::Memory::new(endian_of(root.big_endian));
+                    let bbig = root.big_endian != root.backing_other_endian;
+                    let rc = real.entry((bi, bbig)).or_insert_with(|| {
+                        let mut b = backing::Memory::new(endian_of(bbig));
                         for r in &backings[bi] {
                             b.set_memory(r.address, hex_bytes(&r.data), perms_of(r.perms));
                         }
@@ -747,11 +760,18 @@ impl<'a, V: SimValue> Exec<'a, V> {
             }
             Action::Compare { a, b } => self.compare(*a, *b, idx),
             Action::Sweep => self.sweep_all(&format!("sweep at action {}", idx)),
-            Action::SetBacking { p, backing: which } => {
+            Action::Copy { p, from, to, bits } => {
+                let mut party = self.pool.borrow_mut().parties.remove(p)?;
+                self.log.str("copy");
+                let r = self.do_copy(&mut party, *from, *to, *bits);
+                self.pool.borrow_mut().parties.insert(*p, party);
+                r
+            }
+            Action::SetBacking { p, backing: which, other_endian } => {
                 let mut party = self.pool.borrow_mut().parties.remove(p)?;
                 self.log.str("set-backing");
                 self.c.inc("op.set_backing");
-                let big = party.shadow.big_endian;
+                let big = party.shadow.big_endian != *other_endian;
                 let regions: Option<&Vec<Region>> = which.and_then(|i| self.script.config.backings.get(i));
                 let rc = match (which, regions) {
                     (Some(i), Some(regions)) => Some(
@@ -955,6 +975,45 @@ impl<'a, V: SimValue> Exec<'a, V> {
             ));
         }
         None
+    }
+
+    fn do_copy(&mut self, party: &mut Party<V>, from: u64, to: u64, bits: usize) -> Option<Violation> {
+        // only for constant memories: re-storing loaded *expressions* nests them deeper on
+        // every round and the run time explodes (inherent to symbolic values, not a defect)
+        if V::NAME != "constant" {
+            return None;
+        }
+        if let Some(v) = self.check_load(party, from, bits, "copy source") {
+            return Some(v);
+        }
+        let loaded = match catch(|| party.mem.load(from, bits)) {
+            Ok(Ok(Some(x))) => x,
+            _ => return None,
+        };
+        let val = match party.shadow.load(from, bits) {
+            Some(v) => v,
+            None => return None,
+        };
+        self.c.inc("op.copy");
+        if from == to {
+            self.c.inc("op.copy-restore-in-place");
+            let from_backing = (0..bits as u64 / 8).any(|i| !party.shadow.stored.contains_key(&(from + i)));
+            if from_backing {
+                self.c.inc("copy.restores-backing-bytes");
+            }
+        }
+        self.begin_op();
+        let r = catch(|| party.mem.store(to, loaded));
+        self.end_op();
+        party.content = self.pool.borrow_mut().fresh();
+        party.wrote_since_fork = true;
+        match r {
+            Err(p) => return Some(self.viol("panic", party, format!("store of a loaded value at 0x{:x} panicked: {}", to, panic_site(&p)))),
+            Ok(Err(e)) => return Some(self.viol("store-error", party, format!("store of a loaded {}-bit value at 0x{:x}: Err({})", bits, to, e))),
+            Ok(Ok(())) => {}
+        }
+        party.shadow.store(to, &val);
+        self.check_load(party, to, bits, "read-back after copy")
     }
 
     fn do_setperm(&mut self, party: &mut Party<V>, addr: u64, len: u64, perms: u32) -> Option<Violation> {
@@ -1168,6 +1227,7 @@ pub fn generate(run_seed: u64, index: u64) -> Script {
             id,
             big_endian: be,
             backing,
+            backing_other_endian: rng.chance(1, 4),
         });
     }
 
@@ -1196,6 +1256,7 @@ pub fn generate(run_seed: u64, index: u64) -> Script {
         ("sweep", 1),
         ("arm", 2),
         ("setbacking", 1),
+        ("copy", 2),
     ] {
         if rng.chance(2, 3) {
             weights.push((k, w));
@@ -1288,7 +1349,13 @@ pub fn generate(run_seed: u64, index: u64) -> Script {
                 } else {
                     Some(rng.usize_below(backings.len()))
                 };
-                actions.push(Action::SetBacking { p, backing: which });
+                actions.push(Action::SetBacking { p, backing: which, other_endian: rng.chance(1, 4) });
+            }
+            "copy" if !expression => {
+                let bits = *rng.pick(&widths);
+                let from = addr_in(&mut rng, bits as u64 / 8);
+                let to = if rng.chance(1, 2) { from } else { addr_in(&mut rng, bits as u64 / 8) };
+                actions.push(Action::Copy { p, from, to, bits });
             }
             "arm" if !fault_free => {
                 if live.len() > 1 {
@@ -1390,6 +1457,7 @@ pub fn minimise(script: &Script, class: &str) -> Script {
                 | Action::SetPerm { p, .. }
                 | Action::Perm { p, .. }
                 | Action::SetBacking { p, .. }
+                | Action::Copy { p, .. }
                 | Action::Drop { p } => vec![*p],
                 Action::Fork { p, new } => vec![*p, *new],
                 Action::Compare { a, b } => vec![*a, *b],
